@@ -177,12 +177,16 @@ aligned-read fast path that knows where the second register block ends, coalesce
 pairwise, a send worker that flushes on every exit path, a block-wise line splitter that appends its
 tail, a timer loop on locals that compares after the wrap, a generation-counter cache of bus timings
 that cannot come round, merged call / exception-entry routines that keep the order of fetch and push,
-merged field parsers that do not widen what is accepted.  Each keeps the suite green and, by its
+merged field parsers that do not widen what is accepted, a multi-entry instruction cache with correct
+tags, a decoded-instruction memo validated at use, a dispatch table, one-decode immediates, a two-level
+address decode, string tables indexed once with tail sharing, a handler cache validated against the
+vector bytes, hoisted load / store tails that price the access before the register changes.  Each keeps the suite green and, by its
 author's argument (most of them backed by a differential test against the old code), the property.
 Result: the registered checks were silent on {nr - alarms} of {nr}; **{alarms} raised an alarm that turned out
 to be a false alarm of the machinery** (C10-R2: order among simultaneously pending requests;
-C01-R3 and C09-R3: a correct read-ahead made stale by the harness's own set-up writes; §7.4), all
-corrected.  Where a refactoring deliberately picked a different behaviour that
+C01-R3, C09-R3 and C04-R3: a correct read-ahead / instruction cache made stale by the harness's own
+set-up writes; §7.4), all corrected - the last three by moving every set-up write of the harness onto
+`Bus::write`.  Where a refactoring deliberately picked a different behaviour that
 the statement allows (C01-R2: `MOV Rs,@-ERn` with Rs inside ERn; C10-R2: lowest vector first;
 C17-R2: no overflow of the elapsed-state accumulator), the checks accept it.
 
